@@ -134,6 +134,19 @@ PROPS = {
                      "values of the constants XI, ELLP_A, ELLP_B, SQRT_M_XI_CUBED, ROOTS_OF_UNITY, ETAS (closed-term facts, not checked)"],
         assumptions=[A['A8'], A['D_FQ'], "laws of fpow / f2pow (specs/fpow.vrs: ring theory)", A['TOOLS'], "rewrites R11 (slice patterns), R4 (slice loops), R9a (terminal panic)"],
     ),
+    'C08': dict(
+        units_quick=['kani:limbs'], units_thorough=['kani:limbs'], timeout=3000,
+        technique="contract harnesses checked by Kani/CBMC on the compiled crate: full 384-/256-bit input domain, loops bounded by the limb count with unwinding assertions (complete, not bounded)",
+        claim="PARTIAL: for FqRepr (6 limbs) and FrRepr (4 limbs), on every input: is_zero, is_odd/is_even, add_nocarry and sub_noborrow (within their "
+              "no-carry / no-borrow preconditions), div2, mul2, shr / shl by any n, num_bits, cmp (= order of the unsigned integers), From<u64>; and for Fq "
+              "and Fr on every pair of valid (reduced) Montgomery representatives: add_assign, sub_assign, negate, double give (a+b), (a-b), (-a), 2a modulo the "
+              "modulus and a reduced result, is_zero exact, zero() is 0. Checked against a schoolbook word-level reference by CBMC (bit-precise). "
+              "Method-call syntax is used as in the derived code, so an inherent method shadowing a trait method is what gets checked.",
+        not_covered=["Montgomery multiplication / squaring / mont_reduce, from_repr / into_repr, inverse, pow, sqrt, legendre, read/write_be/le - not within CBMC's reach "
+                     "(36 64x64-bit multipliers) and no Verus unit completed", "the values of the constants MODULUS, R, R2, INV, GENERATOR, ROOT_OF_UNITY",
+                     "Ord on Fq/Fr (goes through into_repr)"],
+        assumptions=["Kani 0.68 / CBMC 6.11; the unsafe transmute constructor pairing::bls12_381::transmute::{fq, fr} and mem::transmute_copy are used to move raw limbs in and out", "rustc codegen (MIR -> goto)"],
+    ),
 }
 
 HOOK_COMMITS = []
